@@ -164,6 +164,12 @@ def run(chk, replay_input=None):
         data, secs = vlib.run_harness("frame", chk.tmp("frame.json"), seed=chk.seed, n=36, garbage=260, maxcut2=60, nrand=10)
     else:
         data, secs = vlib.run_harness("frame", chk.tmp("frame.json"), timeout=1500, seed=chk.seed, n=400, garbage=3000, maxcut2=90, nrand=40)
+    for k in ("reads", "prefixes", "drives", "writes"):
+        data[k] = data.get(k) or []
+        for c in data[k]:
+            for f in ("tbl", "obs", "parts"):
+                if f in c and c[f] is None:
+                    c[f] = []
     cases = terms_of(data)
     mism = eval_model(cases)
     # ---- classification
@@ -174,7 +180,7 @@ def run(chk, replay_input=None):
             if not c["oracle"]:
                 continue
             n_oracle += 1
-            key = c["oracle"][:60]
+            key = re.sub(r"\d+", "#", c["oracle"])[:70]
             if key in reported or len(reported) >= 8:
                 continue
             reported.add(key)
